@@ -103,16 +103,39 @@ def A_harness(textfn, do_tokens=False, do_parse=True, mode="exec", path_oracles=
         if "_tiling" in rec:
             rec["viol"].append(_cand("c08", [w], rec.pop("_tiling")))
         # --- concrete oracles on the witness (CPython-backed ones can only be run per path)
-        for name in path_oracles:
-            f = oracles.ORACLES[name]
-            if name in ("c08", "c09"):
-                v = f(X, w)
-            elif name == "c03":
-                continue
-            else:
-                v = f(X, w, md)
-            if v is not None:
-                rec["viol"].append(_cand(name, [w] if name in ("c08", "c09") else [w, md], v))
+        # CPython is opaque: characters that OUR code treats alike (one path class) may differ for CPython (NFKC-unstable letters, non-ASCII
+        # digits, ...).  Besides the solver's witness, one more member of the class is tried: every symbolic character whose residual domain
+        # holds non-ASCII representatives takes one of them, rotating with the path, so that over a run every representative meets CPython
+        # in every kind of position.  (Any concrete input is a legitimate question to a concrete oracle; violations are replayed anyway.)
+        wits = [w]
+        if isinstance(t, SymStr) and path_oracles:
+            alt, changed = [], False
+            for c in t.e:
+                if isinstance(c, str):
+                    alt.append(c)
+                    continue
+                dom = ex.dom.get(c.var.get_id()) or ()
+                na = sorted(k for k in dom if ord(c.xf[k]) > 127 and not 0xD800 <= ord(c.xf[k]) <= 0xDFFF)
+                cur = c.ev(m)
+                if na:
+                    pick = c.xf[na[(len(getattr(ex, "trail", ())) + len(w)) % len(na)]]
+                    changed = changed or pick != cur
+                    alt.append(pick)
+                else:
+                    alt.append(cur)
+            if changed:
+                wits.append("".join(alt))
+        for wi in wits:
+            for name in path_oracles:
+                f = oracles.ORACLES[name]
+                if name in ("c08", "c09"):
+                    v = f(X, wi)
+                elif name == "c03":
+                    continue
+                else:
+                    v = f(X, wi, md)
+                if v is not None:
+                    rec["viol"].append(_cand(name, [wi] if name in ("c08", "c09") else [wi, md], v))
         if extra:
             extra(ex, rec, t, w, md)
         return rec
